@@ -136,8 +136,9 @@ def build_pool():
     sh = elm.short_circuit("sc")
     P["net1"] = Network([Branch("1", "0", vs), Branch("1", "2", elm.resistor("R1", 5)), Branch("2", "0", elm.impedance("Z1", 1 + 2j)),
                          Branch("2", "3", sh), Branch("3", "0", cs), Branch("3", "0", elm.admittance("Y1", 0.25)), Branch("0", "3", lv), Branch("1", "3", elm.open_circuit("oc"))])
-    P["net2"] = Network([Branch("a", "b", elm.current_source("I1", 1)), Branch("a", "b", elm.resistor("Ra", 7)), Branch("b", "c", elm.resistor("Rb", 3)),
-                         Branch("c", "a", elm.voltage_source("V2", 4))], node_zero_label="b")
+    v2, i1 = elm.voltage_source("V2", 4), elm.current_source("I1", 1)
+    P["net2"] = Network([Branch("a", "b", i1), Branch("a", "b", elm.resistor("Ra", 7)), Branch("b", "c", elm.resistor("Rb", 3)),
+                         Branch("c", "a", v2)], node_zero_label="b")
     # "twin" networks: same labelled graph / same values, but different element kinds or permuted source names - the inputs on
     # which a cache keyed by too little (graph only, values only) returns another network's answer
     P["netK1"] = Network([Branch("1", "0", elm.voltage_source("x", 10)), Branch("1", "2", elm.resistor("y", 10)), Branch("2", "0", elm.resistor("z", 20))])
@@ -145,8 +146,10 @@ def build_pool():
     P["netK3"] = Network([Branch("1", "0", elm.current_source("x", 2)), Branch("1", "2", elm.resistor("y", 10)), Branch("2", "0", elm.voltage_source("z", 3, 4))])
     P["netVa"] = Network([Branch("1", "0", elm.voltage_source("Va", 10)), Branch("2", "0", elm.voltage_source("Vb", 4)), Branch("1", "2", elm.resistor("R12", 2)), Branch("2", "0", elm.resistor("R20", 4))])
     P["netVb"] = Network([Branch("1", "0", elm.voltage_source("Vb", 10)), Branch("2", "0", elm.voltage_source("Va", 4)), Branch("1", "2", elm.resistor("R12", 2)), Branch("2", "0", elm.resistor("R20", 4))])
-    P["keep"] = [vs, sh]                  # one exemption list object shared by all transformer calls
-    P["keep2"] = [cs]
+    # one exemption list object shared by all transformer calls; it names the sources to keep in every network of the pool
+    # (entries that do not occur in the network at hand are valid and ignored)
+    P["keep"] = [vs, sh, v2]
+    P["keep2"] = [cs, i1]
     P["netD"] = Network([Branch("1", "0", elm.voltage_source("Vs", 1)), Branch("1", "2", elm.resistor("R", 2)), Branch("2", "0", elm.admittance("C", 0)),
                          Branch("2", "3", elm.impedance("L", 0)), Branch("3", "0", elm.resistor("R2", 3))])
     P["c_values"] = {"C": 0.5}
@@ -162,6 +165,8 @@ def build_pool():
     tdesc2 = {"components": [["dc_voltage_source", "Vs", ["1", "0"], {"V": 2}], ["resistor", "R1", ["1", "2"], {"R": 5}], ["inductance", "C1", ["2", "0"], {"L": "1/10"}],
                              ["capacitor", "L1", ["2", "3"], {"C": "1/2"}], ["resistor", "R2", ["3", "0"], {"R": 3}], ["dc_current_source", "Is", ["0", "3"], {"I": 1}], ["ground", "gnd", ["0"], {}]]}
     P["tcirc2"] = adapt.circuit(tdesc2)      # twin of tcirc: same ids and nodes, capacitor and inductor exchanged
+    tdesc3 = {"components": [[c[0], c[1], list(c[2]), ({"C": "1/3"} if c[1] == "C1" else {"L": "1/7"} if c[1] == "L1" else dict(c[3]))] for c in tdesc["components"]]}
+    P["tcirc3"] = adapt.circuit(tdesc3)      # twin of tcirc: everything equal except the capacitance and the inductance
     P["w_list"] = [0.0, 2.0, 0.5]
     P["w_arr"] = np.array([0.0, 2.0, 0.5])
     P["nodes"] = ["1", "2", "3"]
@@ -239,6 +244,9 @@ def alphabet():
     A["remove_ideal_v_default"] = lambda P: net_dump(trf.remove_ideal_voltage_sources(P["net1"]))
     A["passive_keep"] = lambda P: net_dump(trf.passive_network(P["net1"], keep=P["keep"]))
     A["passive_default"] = lambda P: net_dump(trf.passive_network(P["net2"]))
+    A["zero_v_keep_net2"] = lambda P: net_dump(trf.short_circuitify_voltage_sources(P["net2"], keep=P["keep"]))
+    A["zero_i_keep_net2"] = lambda P: net_dump(trf.open_circuitify_current_sources(P["net2"], keep=P["keep2"]))
+    A["passive_keep_net2"] = lambda P: net_dump(trf.passive_network(P["net2"], keep=P["keep"]))
 
     def ssm_dump(m):
         return [canon(m.A), canon(m.B), canon(m.C), canon(m.D), list(m.sources)]
@@ -273,6 +281,12 @@ def alphabet():
         s = cs.TransientSolution(circuit=P["tcirc"], tin=P["tin"], input=P["inputs"])
         return [canon(s.get_potential("2")), canon(s.get_voltage("C1")), canon(s.get_current("L1")), canon(s.get_power("R2")), canon(s.get_current("Vs"))]
     A["transient_solution"] = tr
+
+    def tr3(P):
+        s = cs.TransientSolution(circuit=P["tcirc3"], tin=P["tin"], input=P["inputs"])
+        return [canon(s.get_potential("2")), canon(s.get_voltage("C1")), canon(s.get_current("L1")), canon(s.get_power("R2")), canon(s.get_current("Vs"))]
+    A["transient_solution_twin_values"] = tr3
+    A["circuit_ssm_twin_values"] = lambda P: [canon(getattr(cssm.state_space_model(P["tcirc3"], potential_nodes=P["nodes"], voltage_ids=P["ids"], current_ids=P["ids"]), k)) for k in "ABCD"]
     A["impedance_sweep"] = lambda P: [canon(cimp.open_circuit_impedance(P["tcirc"], "2", "0", w=P["w_arr"])), canon(cimp.element_impedance(P["tcirc"], "R1", w=P["w_arr"]))]
     A["impedance_sweep_default"] = lambda P: [canon(cimp.open_circuit_impedance(P["tcirc"], "2", "0")), canon(cimp.element_impedance(P["tcirc"], "R1")), canon(cimp.open_circuit_dc_resistance(P["tcirc"], "3", "0")),
                                               canon(cimp.element_dc_resistance(P["tcirc"], "R2"))]
@@ -334,7 +348,7 @@ def scribble(x, depth=0):
             scribble(v, depth + 1)
 
 
-SHARED_ARG_OPS = ["remove_short_keep", "remove_short_default", "zero_v_keep", "zero_v_default", "zero_i_keep", "remove_ideal_v_keep", "passive_keep", "passive_default",
+SHARED_ARG_OPS = ["zero_v_keep_net2", "zero_i_keep_net2", "passive_keep_net2", "remove_short_keep", "remove_short_default", "zero_v_keep", "zero_v_default", "zero_i_keep", "remove_ideal_v_keep", "passive_keep", "passive_default",
                   "nodal_ssm_shared_dicts", "nodal_ssm_defaults", "transform_list", "transform_default", "transient_solution", "impedance_sweep_default",
                   "load_network", "to_complex_degree", "undictify_circuit", "undictify_all", "dictify_all", "serialize_roundtrip_json", "deserialize_circuit_text"]
 
